@@ -914,3 +914,45 @@ class _ms_all(Contract):
             ("every_point_of_the_name", forall([i], z3.Implies(z3.And(0 <= i, i < n, S.Tr(i), meas(dec(l_at(items, i))) == nm), z3.Exists([a], z3.And(S.Tr(a), 0 <= a, a < L, src(a) == i), patterns=[S.Tr(a), src(a)])), patterns=[l_at(items, i)])),
             ("order", z3.If(c.sorted.t, in_stable_time_order(R, src, L), in_storage_order(src, L))),
         ] + valid_after_read(c.self.t["_db"])
+
+
+# ---------------------------------------------------------------------------------------------- construction: the base case of the database invariant
+from pyvc.verify import Exec as _Exec
+from .db_model import Cache
+
+StorageClass = TU("StorageClass")
+KWARGS = TDict(TStr, StorageClass)
+_Exec.attr_handlers[("Obj_TinyFlux", "default_storage_class")] = lambda ex, v, node, st: Val(StorageClass, z3.Const("default_storage_class", sort_of(StorageClass)))
+_Exec.coercions.setdefault("HandleCache", {})["EmptyDict"] = lambda ex, v: Val(Cache, z3.Const("empty_handle_cache", sort_of(Cache)))
+_Exec.empty_handlers["HandleCache"] = lambda ex: Val(Cache, z3.Const("empty_handle_cache", sort_of(Cache)))
+# what the storage constructor reports about itself: ASSUMED to be true exactly when the new storage object holds no item
+_Exec.attr_handlers[("Obj_Storage", "_initially_empty")] = lambda ex, v, node, st: Val(TBool, l_len(v.t["items"].t) == 0)
+
+
+def _construct_storage(ex, cls, node, st):
+    """storage(*args, **kwargs): ASSUMED postcondition of the storage constructors - a storage with some contents, no temporary content yet"""
+    s_ = fresh(STG, "new_storage", ex.classes_fields())
+    for f in wf(s_):
+        ex.fact(st, f)
+    ex.fact(st, l_len(s_.t["temp"].t) == 0)
+    return s_
+
+
+_Exec.call_handlers["StorageClass"] = _construct_storage
+
+
+@contract("tinyflux.database.TinyFlux.__init__")
+class _db_init(Contract):
+    """C06 base case: a new database satisfies the database invariant - the index is valid exactly when it represents the storage it was opened on
+    (empty storage: empty valid index; existing data: rebuilt when automatic indexing is on, invalid otherwise)"""
+    params = dict(self=DB, args=TU("Opaque"), auto_index=TBool, kwargs=KWARGS)
+    defaults = dict(auto_index=lambda ex: mk_bool(True))
+    modifies = ("_auto_index", "_storage", "_index", "_measurements", "_open")
+    raises = {"OSError": staticmethod(lambda c: dict(when=z3.BoolVal(True), exact=False)), "ReadFault": staticmethod(lambda c: dict(when=z3.BoolVal(True), exact=False)),
+              "AssertionError": staticmethod(lambda c: None)}
+
+    @staticmethod
+    def ensures(c):
+        return dbinv(c.self) + [("auto_index_as_given", c.self.t["_auto_index"].t == c.auto_index.t),
+                                ("valid_when_auto_or_empty", z3.Implies(z3.Or(c.self.t["_auto_index"].t, l_len(c.self.t["_storage"].t["items"].t) == 0), c.self.t["_index"].t["_valid"].t)),
+                                ("open", c.self.t["_open"].t)]
